@@ -20,7 +20,8 @@ type Dog implements Node & Pet { id: ID! name: String! bark: [String!]! }
 union Thing = Cat | Dog
 enum Mood { HAPPY GRUMPY @deprecated }
 input Filter { mood: Mood = HAPPY limit: Int = 10 tags: [String!] }
-type Query { node(id: ID!): Node pets(filter: Filter, limit: Int = null): [Pet!]! things: [Thing!]! }
+interface Lonely { id: ID! }
+type Query { node(id: ID!): Node pets(filter: Filter, limit: Int = null): [Pet!]! things: [Thing!]! lonely: Lonely }
 `
 const vS16B = `
 interface Node { id: ID! }
